@@ -236,7 +236,7 @@ pub fn campaigns(ctx: &Ctx) -> Stats {
             Some(c)
         }));
     }
-    let (max_rank, max_size, total, max_elems) = ctx.tier.pick((5usize, 8usize, 40000u64, 600usize), (5, 11, 400000, 2048));
+    let (max_rank, max_size, total, max_elems) = ctx.tier.pick((5usize, 8usize, 160000u64, 600usize), (5, 11, 400000, 2048));
     let strat = move || {
         (
             prop::collection::vec(1..=max_size, 1..=max_rank),
